@@ -346,12 +346,12 @@ class FileInfo(os.PathLike):
         times = []
         for i in range(2):
             if json_dict["times"][i] is None:
-                times.append([None])
-            else:
-                times.append(
-                    datetime.strptime(
-                        json_dict["times"][i], "%Y-%m-%dT%H:%M:%S.%f"),
-                )
+                # find() cannot work with a cached entry without its times
+                raise ValueError("Cached file information without times!")
+            times.append(
+                datetime.strptime(
+                    json_dict["times"][i], "%Y-%m-%dT%H:%M:%S.%f"),
+            )
 
         return cls(json_dict["path"], times, json_dict["attr"])
 
